@@ -62,6 +62,10 @@ EXPLANATION += ' R5: the inverse tables are compared as values (any expression f
 TECHNIQUE += '; evaluation of the FCIDUMP record writer'
 EXPLANATION += ' R4: the FCIDUMP integral loops are interpreted on a 3-orbital model whose symmetry-distinct integrals all differ; every printed record `v i j k l` must be the element <ik|jl> of the array (one-based), `v i j 0 0` the one-electron element. R3: range(<expression>, ...) carries the index nature of its start value instead of counting from zero.'
 # --- end metadata round-4 twins
+# --- metadata added for batch 9
+TECHNIQUE += '; def-use provenance of the WFX sections'
+EXPLANATION += ' Added: (R33) WFX section sources as in C01-R20. R25 also feeds the whole cube loader a header with negative point counts (angstrom flavour): refused or converted, never taken as bohr. R31: the MOL2 model carries atom types that spell other elements (`CA`, `os`).'
+# --- end metadata batch 9
 
 
 def _lev(a, b):
